@@ -130,17 +130,29 @@ impl RdfPlanner {
         let mut columns = Vec::new();
         let mut output_mask = [false, false, false, false]; // s, p, o, g
 
+        // A variable that occurs at several positions of one pattern (`?x ?p ?x`) is emitted
+        // once and constrains those positions to hold the same term.
+        let mut same_term = [false, false, false]; // s == p, s == o, p == o
         if let TripleComponent::Variable(name) = &scan.subject {
             columns.push(name.clone());
             output_mask[0] = true;
         }
         if let TripleComponent::Variable(name) = &scan.predicate {
-            columns.push(name.clone());
-            output_mask[1] = true;
+            if columns.contains(name) {
+                same_term[0] = true;
+            } else {
+                columns.push(name.clone());
+                output_mask[1] = true;
+            }
         }
         if let TripleComponent::Variable(name) = &scan.object {
-            columns.push(name.clone());
-            output_mask[2] = true;
+            if let Some(pos) = columns.iter().position(|c| c == name) {
+                let first_is_subject = pos == 0 && output_mask[0];
+                same_term[if first_is_subject { 1 } else { 2 }] = true;
+            } else {
+                columns.push(name.clone());
+                output_mask[2] = true;
+            }
         }
         if let Some(TripleComponent::Variable(name)) = &scan.graph {
             columns.push(name.clone());
@@ -148,12 +160,15 @@ impl RdfPlanner {
         }
 
         // Create the lazy scanning operator
-        let operator = Box::new(RdfTripleScanOperator::new(
-            Arc::clone(&self.store),
-            pattern,
-            output_mask,
-            self.chunk_size,
-        ));
+        let operator = Box::new(
+            RdfTripleScanOperator::new(
+                Arc::clone(&self.store),
+                pattern,
+                output_mask,
+                self.chunk_size,
+            )
+            .with_same_term(same_term),
+        );
 
         Ok((operator, columns))
     }
@@ -1587,6 +1602,8 @@ struct RdfTripleScanOperator {
     triples: Option<Vec<Arc<Triple>>>,
     /// Current position in the triples.
     position: usize,
+    /// Positions bound to the same variable: [s == p, s == o, p == o].
+    same_term: [bool; 3],
 }
 
 impl RdfTripleScanOperator {
@@ -1603,13 +1620,29 @@ impl RdfTripleScanOperator {
             chunk_size,
             triples: None,
             position: 0,
+            same_term: [false; 3],
         }
+    }
+
+    /// Requires the given positions ([s == p, s == o, p == o]) to hold the same term.
+    fn with_same_term(mut self, same_term: [bool; 3]) -> Self {
+        self.same_term = same_term;
+        self
     }
 
     /// Lazily load matching triples on first access.
     fn ensure_triples(&mut self) {
         if self.triples.is_none() {
-            self.triples = Some(self.store.find(&self.pattern));
+            let mut triples = self.store.find(&self.pattern);
+            let [sp, so, po] = self.same_term;
+            if sp || so || po {
+                triples.retain(|t| {
+                    (!sp || t.subject() == t.predicate())
+                        && (!so || t.subject() == t.object())
+                        && (!po || t.predicate() == t.object())
+                });
+            }
+            self.triples = Some(triples);
         }
     }
 
